@@ -133,6 +133,74 @@ CMP = """if n < 40 && %s K F s 77 (E+2) != ofSeek' (%s K F s) then
               n := n + 1"""
 
 
+SEARCH_D = """
+def mkD (code len : Nat) : FileV × (Nat → Option Int) :=
+  -- letters: 0 = line feed, 1 = 'x', 2..4 = 'A'..'C' (a byte at which a timestamp 0..2 is read)
+  let dig : Nat → Nat := fun i => (code / 5 ^ i) % 5
+  (⟨len, fun i => dig i == 0⟩,
+   fun i => if i < len && dig i ≥ 2 then some ((dig i : Int) - 2) else none)
+instance : ShowV (Option LLine) := ⟨fun o => match o with | none => "NONE" | some l => ShowV.sh l⟩
+instance : ShowV (Option Int × Bool × Option LLine) :=
+  ⟨fun r => s!"DATE:{showO r.1}/FA:{r.2.1}/LI:{ShowV.sh r.2.2}"⟩
+def bridgeSearchD : IO Unit := do
+  let mut n := 0
+  for len in [0:7] do
+    for code in [0:5^len] do
+      let (F, ts) := mkD code len
+      for H in [1:3] do
+        for E in [1:3] do
+          for A in [1:4] do
+            let K : SeekK := ⟨H, E, A⟩
+            for s in [0:len+1] do
+              @@CMPS@@
+  IO.println "done"
+#eval bridgeSearchD
+"""
+CMP_TWD = """for a in optsL len do
+                for fw in [true, false] do
+                  if n < 40 && try_find_line_with_date K F ts s a fw 77 (E+A+2) != ofSeek' (tryFindLineWithDate K F ts s a fw) then
+                    IO.println s!"DIS try_find_line_with_date {len} {code} {H} {E} {s} {showR (try_find_line_with_date K F ts s a fw 77 (E+A+2))} {showR (ofSeek' (tryFindLineWithDate K F ts s a fw))} {A} {showO a} {fw}"
+                    n := n + 1"""
+CMP_GI = """if s < len then
+                for since in [0, 1, 2] do
+                  let want : Py.Res (Option Int × Bool × Option LLine) := match getItem K F ts s with
+                    | .error e => .exc (errName' e)
+                    | .ok l => .ret (l.date ts, true, if (l.date ts).getD 0 ≥ since then some l else none)
+                  if n < 40 && getitem K F ts since s false none 77 (E+A+2) != want then
+                    IO.println s!"DIS getitem {len} {code} {H} {E} {s} {showR (getitem K F ts since s false none 77 (E+A+2))} {showR want} {A} {since}"
+                    n := n + 1"""
+
+
+def _small_scope_dated(text, funcs):
+    """ the walk over undated lines and __getitem__: files over {LF, x, A, B, C} of up to 6 bytes
+    (a timestamp 0..2 is read at A..C), H, EXP in 1..2, ATT in 1..3, every offset """
+    cmps = []
+    if 'try_find_line_with_date' in funcs:
+        cmps.append(CMP_TWD)
+    if 'getitem' in funcs:
+        cmps.append(CMP_GI)
+    if not cmps:
+        return [], True
+    head = SEARCH.split('def bridgeSearch')[0]
+    src = ("import SkModel.Gen.PyPrim\n" + _strip_imports(text) + head
+           + SEARCH_D.replace('@@CMPS@@', '\n              '.join(cmps)))
+    out = _lean(src)
+    dis = []
+    for ln in out.splitlines():
+        if ln.startswith('DIS '):
+            w = ln.split()
+            d = {'func': w[1], 'len': int(w[2]), 'code': int(w[3]), 'H': int(w[4]),
+                 'EXP': int(w[5]), 'start': int(w[6]), 'translated': w[7], 'model': w[8],
+                 'ATT': int(w[9])}
+            if w[1] == 'getitem':
+                d['since'] = int(w[10])
+            else:
+                d['lfo'] = None if w[10] == 'N' else int(w[10])
+                d['fwd'] = w[11] == 'true'
+            dis.append(d)
+    return dis, 'done' in out and 'error' not in out
+
+
 def _small_scope(text, funcs):
     """ translated function vs model on every small instance -> list of disagreements """
     cmps = []
@@ -158,6 +226,8 @@ def _small_scope(text, funcs):
 
 
 def content_of(d):
+    if 'code' in d:
+        return bytes(b'\nxABC'[(d['code'] // 5 ** i) % 5] for i in range(d['len']))
     return bytes(10 if (d['bits'] >> i) & 1 else 120 for i in range(d['len']))
 
 
@@ -223,8 +293,101 @@ def replay_on_impl(d):
         S.SEEK_HORIZON, S.MAX_SEEK_HORIZON_EXPAND = old
 
 
+def replay_dated(d):
+    """ a disagreement of the dated small-scope search on the REAL seeker: constants set to the
+    small values, a constraint whose timestamp extraction reads the letters A..C (0..2 days
+    after the epoch).  Judged against C04's own statement when its hypotheses hold for that
+    file (dated lines in order, undated runs + 1 <= ATT, lines within (EXP-1)*H): the file must
+    be left at the first line at or after the since date. """
+    core.import_searchkit()
+    import io
+    from datetime import datetime, timedelta
+    from searchkit import constraints as C
+    from vh import matchers
+    S = C.LogFileDateSinceSeeker
+    epoch = datetime(2000, 1, 1)
+    content = content_of(d)
+
+    class Stub(C.SearchConstraintSearchSince):
+        def extracted_datetime(self, line):
+            if isinstance(line, str):
+                line = line.encode()
+            if line[:1] in (b'A', b'B', b'C'):
+                return epoch + timedelta(days=line[0] - 65)
+            return None
+
+    def mk(since):
+        return Stub(current_date=(epoch + timedelta(days=since)).strftime('%Y-%m-%d %H:%M:%S'),
+                    ts_matcher_cls=matchers.MATCHERS['std'], days=0, hours=0)
+    old = (S.SEEK_HORIZON, S.MAX_SEEK_HORIZON_EXPAND, S.MAX_TRY_FIND_WITH_DATE_ATTEMPTS)
+    S.SEEK_HORIZON, S.MAX_SEEK_HORIZON_EXPAND = d['H'], d['EXP']
+    S.MAX_TRY_FIND_WITH_DATE_ATTEMPTS = d['ATT']
+
+    def show_tok(st):
+        return f"{st.status.name}:{st.offset}"
+
+    def show_line(l):
+        return 'NONE' if l is None else \
+            f"LINE/{show_tok(l._line_start_lf)}/{show_tok(l._line_end_lf)}"
+    try:
+        since = d.get('since', 0)
+        seeker = S(io.BytesIO(content), mk(since))
+        try:
+            if d['func'] == 'getitem':
+                dt = seeker[d['start']]
+                got = (f"DATE:{(dt - epoch).days}/FA:{str(bool(seeker.found_any_date)).lower()}"
+                       f"/LI:{show_line(seeker.line_info)}")
+            else:
+                got = show_line(seeker.try_find_line_with_date(d['start'], d['lfo'], d['fwd']))
+        except Exception as ex:  # pylint: disable=broad-except
+            got = 'EXC:' + type(ex).__name__
+        # C04's statement on this file, for every since date
+        lines, pos = [], 0
+        for ln in content.split(b'\n'):
+            lines.append((pos, ln))
+            pos += len(ln) + 1
+        if content.endswith(b'\n'):
+            lines.pop()
+        dated = [(p, ln[0] - 65) for p, ln in lines if ln[:1] in (b'A', b'B', b'C')]
+        runs, cur = [], 0
+        for p, ln in lines:
+            if ln[:1] in (b'A', b'B', b'C'):
+                runs.append(cur)
+                cur = 0
+            else:
+                cur += 1
+        runs.append(cur)
+        hyp = (all(len(ln) <= (d['EXP'] - 1) * d['H'] for _, ln in lines) and
+               all(a[1] <= b[1] for a, b in zip(dated, dated[1:])) and
+               all(r + 1 <= d['ATT'] for r in runs))
+        if hyp:
+            for sn in (0, 1, 2):
+                want = 0 if not dated else next((p for p, t in dated if t >= sn), len(content))
+                fd = io.BytesIO(content)
+                fd.name = 'small'
+                try:
+                    mk(sn).apply_to_file(fd)
+                    where = fd.tell()
+                except Exception as ex:  # pylint: disable=broad-except
+                    where = 'raised ' + type(ex).__name__
+                if where != want:
+                    return ('failing-input',
+                            f"with SEEK_HORIZON={d['H']} MAX_SEEK_HORIZON_EXPAND={d['EXP']} "
+                            f"MAX_TRY_FIND_WITH_DATE_ATTEMPTS={d['ATT']} and timestamps 0..2 read at "
+                            f"the letters A..C, a since constraint at {sn} leaves {content!r} at "
+                            f"{where}; the first line at or after the since date starts at {want}")
+        if got == d['model']:
+            return ('translator-mismatch', f"{d['func']} at {d['start']} on {content!r}: code and "
+                                           f"model answer {got}, the translation {d['translated']}")
+        return ('confirmed', f"{d['func']} at {d['start']} on {content!r} (timestamps 0..2 at the "
+                             f"letters A..C; SEEK_HORIZON={d['H']} EXPAND={d['EXP']} "
+                             f"ATTEMPTS={d['ATT']}): the code answers {got}, the model {d['model']}")
+    finally:
+        (S.SEEK_HORIZON, S.MAX_SEEK_HORIZON_EXPAND, S.MAX_TRY_FIND_WITH_DATE_ATTEMPTS) = old
+
+
 def _replay_shard(_rng, _count, extra):
-    return [replay_on_impl(d) for d in extra['dis']]
+    return [replay_dated(d) if 'code' in d else replay_on_impl(d) for d in extra['dis']]
 
 
 def check(rep, prop):
@@ -271,9 +434,18 @@ def check(rep, prop):
                 if bad and st.get(n) in ('proved', 'proof-broken'):
                     st[n] = f'not available: depends on {bad[0]} ({st[bad[0]].split(":")[0]})'
                     changed = True
+        def compiles(n):
+            return n not in errors and all(compiles(d) for d in deps.get(n, []))
+
+        def searchable(n):
+            return st.get(n) != 'proved' and compiles(n)
         broken = [n for n in ('find_token', 'find_token_reverse', 'try_find_line')
-                  if st.get(n) == 'proof-broken']
+                  if searchable(n)]
         dis, complete = _small_scope(text, broken) if broken else ([], True)
+        broken_d = [n for n in ('try_find_line_with_date', 'getitem') if searchable(n)]
+        if broken_d:
+            dis2, complete2 = _small_scope_dated(text, broken_d)
+            dis, complete = dis + dis2, complete and complete2
         res = {'status': st, 'disagreements': dis, 'search_complete': complete}
         tmp = cache + f'.{os.getpid()}'
         with open(tmp, 'w') as f:
